@@ -28,7 +28,7 @@ import (
 
 func c10Gen(rt *rapid.T) wProg {
 	p := wProg{}
-	p.Cfg = wConfig{Users: 4, NoPush: true}
+	p.Cfg = wConfig{Users: 4, NoPush: true, Root: gPct(rt, 25)}
 	p.Sess = append([]int(nil), gPick(rt, [][]int{{0, 1, 2}, {0, 0, 1, 2}, {0, 1, 1, 2}, {0, 0, 1, 1, 2, 3}, {0, 1, 2, 3}, {0, 1, 1, 2, 2}}, "layout")...)
 	for s := 1; s < len(p.Sess); s++ {
 		if gPct(rt, 15) {
@@ -90,6 +90,19 @@ func c10Gen(rt *rapid.T) wProg {
 	for i := 0; i < n; i++ {
 		s := gInt(rt, 0, len(p.Sess)-1, "s")
 		switch x := gInt(rt, 0, 99, "opk"); {
+		case x < 4 && p.Cfg.Root:
+			// the root session (user 0) attaches to the group on behalf of a member and goes away again
+			m := gInt(rt, 1, 2, "member")
+			p.Ops = append(p.Ops, wOp{K: "leave", S: 0, T: "g0"}, wOp{K: "sub", S: 0, T: "g0", Obo: m + 1})
+			if gPct(rt, 50) {
+				p.Ops = append(p.Ops, wOp{K: "tick", N: 600})
+			}
+			if gPct(rt, 50) {
+				p.Ops = append(p.Ops, wOp{K: "leave", S: 0, T: "g0", Obo: m + 1})
+			} else {
+				p.Ops = append(p.Ops, wOp{K: "reconn", S: 0}, wOp{K: "sub", S: 0, T: "me", B: "sub"})
+			}
+			p.Ops = append(p.Ops, wOp{K: "sub", S: first[m], T: "g0"})
 		case x < 14:
 			p.Ops = append(p.Ops, wOp{K: "sub", S: s, T: "me", B: gPick(rt, []string{"sub", "sub", "sub", ""}, "get")})
 		case x < 20:
@@ -205,25 +218,9 @@ func (o *c10Obs) cacheDisagrees(w *wWorld, live map[string]*wTopicSnap, st *mem.
 	if o.tainted[route] {
 		return true
 	}
-	lt := live[route]
-	if lt == nil {
-		return false
-	}
-	pud, ok := lt.PerUser[uid]
-	if ok && pud.deleted {
-		ok = false
-	}
-	var sw, sg types.AccessMode
-	sok := false
-	for _, r := range st.Subs {
-		if r.Topic == route && r.User == uid && r.DeletedAt == nil {
-			sw, sg, sok = r.ModeWant, r.ModeGiven, true
-		}
-	}
-	if ok != sok {
-		return !pud.isChan
-	}
-	return ok && (pud.modeWant != sw || pud.modeGiven != sg)
+	// Only a listed cause (see tainted) excuses a disagreement: everywhere else the stored,
+	// acknowledged permissions are the truth.
+	return false
 }
 
 func (o *c10Obs) After(w *wWorld, st *wStep) *kit.Viol {
